@@ -148,5 +148,18 @@ Proof.
     + apply Hup; lia.
 Qed.
 
-(* monotonicity along a diagonal gives: anything behind a point at distance <= d is at distance <= d *)
+(* all four cases of the diagonal update at once *)
+Lemma newx_ok fuel d k vm vp : m < Z.of_nat fuel -> 0 <= d -> - d <= k <= d ->
+  (d = 0 -> vp = 0) ->
+  (1 <= d -> - d < k -> Vok (d - 1) (k - 1) vm) ->
+  (1 <= d -> k < d -> Vok (d - 1) (k + 1) vp) ->
+  Vok d k (newx fuel d k vm vp).
+Proof.
+  intros Hf Hd Hk H0 Hm Hp.
+  destruct (Z.eq_dec d 0) as [->|Hne].
+  - assert (k = 0) by lia. subst k. rewrite (H0 eq_refl). now apply newx_base.
+  - destruct (Z.eq_dec k (- d)) as [E1|E1]; [apply newx_lo; try lia; apply Hp; lia|].
+    destruct (Z.eq_dec k d) as [E2|E2]; [apply newx_hi; try lia; apply Hm; lia|].
+    apply newx_mid; try lia; [apply Hm|apply Hp]; lia.
+Qed.
 End Greedy.
